@@ -88,6 +88,7 @@ func checkC18(c *Ctx) {
 	kindVals = append(kindVals, 9999)
 	anyCall := map[string]*ssa.Call{}
 	argDescs := map[string][]string{}
+	structArgs := map[string]map[string]string{}
 	traceCall := func(st *ConcState, v ssa.Value) *ssa.Call {
 		v = Strip(v)
 		for k := 0; k < 12; k++ {
@@ -181,6 +182,14 @@ func checkC18(c *Ctx) {
 				key := d + "(" + strings.Join(ad, " , ") + ")"
 				anyCall[key] = cl
 				argDescs[key] = ad
+				// a struct handed over by value: what its fields hold on this path, in the explored function's terms
+				if as := Args(cl); len(as) > 0 && isStructVal(as[0]) {
+					fm := map[string]string{}
+					for f, dv := range st.FieldsOf(as[0]) {
+						fm[f] = strings.ReplaceAll(dv, "var "+an, an)
+					}
+					structArgs[key] = fm
+				}
 				return "ret " + key
 			},
 			Branch: func(cond ssa.Value, taken bool, st *ConcState) string {
@@ -311,6 +320,11 @@ func checkC18(c *Ctx) {
 				if ok {
 					flds := structValueFields(Args(call)[0])
 					ok = flds["Key"] == an+".Key" && flds["Value"] == "Resolve("+an+".Value)"
+					if !ok {
+						// as seen on the path (the key and the value may have travelled through a helper's parameters)
+						flds = structArgs[ret]
+						ok = flds["Key"] == an+".Key" && flds["Value"] == "Resolve("+an+".Value)"
+					}
 				}
 				if !ok {
 					badArm = append(badArm, "a LogValuer must be resolved and converted again under the same key: "+tag)
@@ -1023,6 +1037,13 @@ func c18EmitProtocol(c *Ctx, rule string) {
 									}
 									if b == ssa.Value(recv) {
 										return true
+									}
+									// ... or of a copy of the receiver (cloned := *h) whose groups were not replaced yet
+									if al, isAl := b.(*ssa.Alloc); isAl {
+										fs := st.FieldsOf(al)
+										if _, replaced := fs[slogGroups]; !replaced && (fs["*"] == "*"+rn || fs["*"] == rn) {
+											return true
+										}
 									}
 								}
 							}
